@@ -9,6 +9,12 @@ P = {
  "C20": dict(tie="hand model + correspondence check",
    text="match_pattern (the 4-cursor loop, with fuel) proved equal to the denotational wildcard semantics for all patterns and strings over Unicode scalar values; pattern sets; policy encode/decode round trip for every value outside the known class One(\"*\"); refusal lemmas. Model tied to the code by exhaustive small sweeps, random pairs and mutated JSON documents on every run.",
    note="Trusted: Coq kernel; model of serde's derive/flatten behaviour at the JSON value level (serde_json text layer trusted); harness, generators, the Python IAM-grammar oracle. Out-of-grammar acceptance is refuted by the listed known findings. No axioms."),
+ "C08": dict(tie="hand model + correspondence check",
+   text="AwsChunkedStream rendered as a frame-driven state machine (phases = await points); theorem for every signing function, input and framing: delivered bytes are the data of a chain of chunks each verified against the previous signature from the seed, and a successful end implies a verified zero-length last chunk and the declared total; tampering reduced to a collision of the signing function; framing independence. Tied to the code by running the real stream (hook) and the model (Gallina HMAC-SHA256) on reference-encoded bodies with single faults under many framings.",
+   note="Trusted: Coq kernel; hand model of aws_chunked_stream.rs incl. nom's hex_u32/take semantics; Gallina SHA-256/HMAC (validated by the AWS example on every run); harness. Collision resistance of HMAC-SHA256 is a named hypothesis, not assumed in any theorem. The converse (every complete upload is accepted) is checked by correspondence only. No axioms."),
+ "C09": dict(tie="hand model + correspondence check",
+   text="Partition independence proved for the chunk-signed decoder (feed (a++b) = feed a ; feed b, hence run frames = run [concat frames]) for all frame lists; multipart/form-data parser and FileStream modelled and compared with the code under every 2-partition of small bodies, 1-byte/empty/token-cut framings and Pending interleavings; plain and buffered bodies are concatenation by construction.",
+   note="Trusted: Coq kernel; hand models of aws_chunked_stream.rs and multipart.rs (header block parser stands for httparse on its common grammar); harness. Partial: the multipart partition-independence is validated by exhaustive small-partition correspondence, its theorem is not yet proved; arrival times (waker contract of the async runtime) are exercised by Pending injection only. No axioms."),
  "C15": dict(tie="hand model + correspondence check",
    text="Message::serialize modelled byte for byte; an independent decoder written from the AWS encoding recovers headers and payload of every frame and of every stream (theorems for all messages/streams, checksum = concrete CRC-32); lengths and header shape. Tied to the code by comparing the real byte stream with the model's and by decoding the real bytes with the model's decoder.",
    note="Trusted: Coq kernel; the event->message table and XML payload text (C13) as modelled; harness. crc32fast is compared with the Gallina CRC-32 on every frame. No axioms."),
